@@ -12,7 +12,7 @@ e2e       Retort(recipe=[loader(expr, Mark)]) / dumper / bound(expr, loader(int,
           reference meaning of the expression
 
 Expression space (surface syntax; see `expression_space`):
-  nesting 0  every raw predicate (9 classes, 3 parametrised hints, 4 identifiers, 3 regex strings), P[raw], P.name, P[r1, r2] over
+  nesting 0  every raw predicate (10 classes, 3 parametrised hints, 4 identifiers, 3 regex strings), P[raw], P.name, P[r1, r2] over
              all ordered pairs of 6 raws and two 3-ary tuples, P.ANY, P.generic_arg(pos, raw), ALL chains of length 2 over a
              12-element alphabet and ALL chains of length 3 over a 5-element alphabet (P[A].a, P.a[int], P[C].a[A] ...)
   nesting 1  ~p for every pattern p of nesting 0; p|q, p&q, p^q for all ordered pairs over the 28 MID patterns; p+q for all ordered
@@ -49,12 +49,12 @@ META = {
         "P.ANY matches every stack (named in the changelog only)",
         "combinators are applied to P patterns and P.ANY only (the documentation promises them for P; `int | str` is a Union)",
         "a combined pattern extended by .name/[x]/+ is read compositionally: the combination is one path element",
-        "stacks deeper than the bound, expressions nested deeper than 2 and types outside the 12-type universe are not explored",
+        "stacks deeper than the bound, expressions nested deeper than 2 and types outside the 13-type universe are not explored",
         "the mediator argument is a real BuiltinMediator obtained like the repo's own tests do (Retort()._create_mediator)",
     ],
     "bound": {
-        "quick": "all expressions x all stacks of length <= 2 over the 46-location alphabet; e2e over nesting <= 1",
-        "thorough": "quick space + all stacks of length 3 over the 26-location alphabet LOCS3; e2e over all expressions",
+        "quick": "all expressions x all stacks of length <= 2 over the 47-location alphabet; e2e over nesting <= 1",
+        "thorough": "quick space + all stacks of length 3 over the 27-location alphabet of location_alphabet(depth3=True); e2e over all expressions",
     },
 }
 
@@ -218,7 +218,7 @@ def location_alphabet(depth3=False):
     """reference-side locations (kind, type name, extra); no predicate can tell an input field from an output field, so the
     output fields carry a smaller set of types"""
     if depth3:
-        t_types = ["int", "bool", "A", "B", "C", "list", "Sequence", "List[int]", "List[str]", "SupportsInt"]
+        t_types = ["int", "bool", "A", "B", "C", "list", "Sequence", "List[int]", "List[str]", "SupportsInt", "Proto"]
         i_fields = [(n, t) for n in NAMES for t in ("int", "A")] + [("a", "B"), ("ab", "List[int]")]
         o_fields = [("a", "int"), ("b", "B"), ("a_1", "list[int]")]
         g_params = [(0, "int"), (1, "int"), (0, "A")]
@@ -497,11 +497,20 @@ def check_identity(name, lhs, rhs, stacks, report):
                          f"{show(lhs)} / {show(rhs)}: {type(exc).__name__}: {exc}"[:300], case)
         return
     med = mediator()
+    # the reference is used for the non-vacuity statistics only (does the documented meaning of the left side separate the
+    # stacks?); the verdict compares implementation with implementation
+    meaning = ref_pred.compile_expr(lhs)
     n_true = 0
     for ref_stack, stack in stacks:
-        a1, b1 = left(med, stack), right(med, stack)
-        a2, b2 = left(med, stack), right(med, stack)
-        n_true += bool(a1)
+        n_true += bool(meaning(ref_stack))
+        try:
+            a1, b1 = left(med, stack), right(med, stack)
+            a2, b2 = left(med, stack), right(med, stack)
+        except Exception as exc:  # noqa: BLE001
+            report.violation({"check": "C10.identity", "form": name, "problem": f"evaluation raised {type(exc).__name__}"},
+                             f"{show(lhs)} / {show(rhs)} on {show_stack(ref_stack)}: {type(exc).__name__}: {exc}"[:300],
+                             {**case, "stack": ref_stack})
+            continue
         if not (a1 == b1 == a2 == b2):
             report.violation({"check": "C10.identity", "form": name, "problem": "the two sides differ on a stack"},
                              f"{show(lhs)} gives {a1!r}/{a2!r} but {show(rhs)} gives {b1!r}/{b2!r} on {show_stack(ref_stack)}",
@@ -660,8 +669,8 @@ def SANITY(report, tier):  # noqa: N802
     for k in ("e2e:marker-at-top", "e2e:marker-below-top", "e2e:marker-nowhere"):
         if out[k] == 0:
             problems.append(f"end-to-end leg never saw outcome {k}")
-    if report.counters["pred.pairs"] != report.counters["space.expressions"] * report.counters["space.stacks"] \
-            and not out["pred:expressions-with-disagreement"] and not report.violations:
+    constructed = report.counters["space.expressions"] - sum(v for k, v in out.items() if k.endswith(":construction-error"))
+    if report.counters["pred.pairs"] != constructed * report.counters["space.stacks"]:
         problems.append("not every (expression, stack) pair was evaluated")
     return problems
 
